@@ -180,20 +180,34 @@ impl Eval for Cmp {
         match self.op {
             CmpOp::Eq => cmp_dispatch(&PartialEq::eq, &context.resolve(&self.path), &self.value),
             CmpOp::NotEq => cmp_dispatch(&PartialEq::ne, &context.resolve(&self.path), &self.value),
-            CmpOp::LessThan => {
-                cmp_dispatch(&PartialOrd::lt, &context.resolve(&self.path), &self.value)
-            }
-            CmpOp::LessThanEq => {
-                cmp_dispatch(&PartialOrd::le, &context.resolve(&self.path), &self.value)
-            }
-            CmpOp::GreatThan => {
-                cmp_dispatch(&PartialOrd::gt, &context.resolve(&self.path), &self.value)
-            }
-            CmpOp::GreatThanEq => {
-                cmp_dispatch(&PartialOrd::ge, &context.resolve(&self.path), &self.value)
-            }
+            CmpOp::LessThan => cmp_dispatch(
+                &same_kind_and(PartialOrd::lt),
+                &context.resolve(&self.path),
+                &self.value,
+            ),
+            CmpOp::LessThanEq => cmp_dispatch(
+                &same_kind_and(PartialOrd::le),
+                &context.resolve(&self.path),
+                &self.value,
+            ),
+            CmpOp::GreatThan => cmp_dispatch(
+                &same_kind_and(PartialOrd::gt),
+                &context.resolve(&self.path),
+                &self.value,
+            ),
+            CmpOp::GreatThanEq => cmp_dispatch(
+                &same_kind_and(PartialOrd::ge),
+                &context.resolve(&self.path),
+                &self.value,
+            ),
         }
     }
+}
+
+/// The ordering operators compare values of the same kind only: the declaration
+/// order of the `Value` variants is not an order between, say, a Str and a Number.
+fn same_kind_and<Cmp: Fn(&Value, &Value) -> bool>(cmp: Cmp) -> impl Fn(&Value, &Value) -> bool {
+    move |lhs, rhs| std::mem::discriminant(lhs) == std::mem::discriminant(rhs) && cmp(lhs, rhs)
 }
 
 fn cmp_dispatch<Cmp: Fn(&Value, &Value) -> bool>(cmp: &Cmp, lhs: &Value, rhs: &Value) -> bool {
